@@ -125,6 +125,9 @@ func (g *ProgGen) name() string {
 }
 
 var hostileNums = []string{"0", "1", "2", "3", "10", "0.5", "1.5", "7", "100", "0.0"}
+// HostileStrs are string literals that are awkward as attribute names, indexes, patterns or operands.
+var HostileStrs = hostileStrs
+
 var hostileStrs = []string{"", "a", "0", "abc", "1.5", "Name", "k", "x y", "(", "^a", "é", "NaN", "Inf", "1e400", "0x1", "-1", "Extra", "N", "Any", "Inner", "true"}
 
 // Expr returns a random, untyped expression.
